@@ -251,8 +251,19 @@ fn trace_case(cfg: &Cfg, cursors: &[Cursor], input: &str, out: &mut String) {
             writeln!(out, "{}", s).unwrap();
         }
     }
-    // S2: parse
+    // S2: parse, with the kernel event log (hook)
+    pasfmt_core::defaults::parser::verif_events::start();
     let (mut lines, mut tokens) = DelphiLogicalLineParser {}.parse(raw);
+    for l in pasfmt_core::defaults::parser::verif_events::take().lines() {
+        if let Some(ev) = l.strip_prefix("PASS ") {
+            writeln!(out, "KPASS {}", if ev.is_empty() { "-" } else { ev }).unwrap();
+        } else if l == "PASS" {
+            writeln!(out, "KPASS -").unwrap();
+        } else if let Some(pl) = l.strip_prefix("PL ") {
+            let toks: String = pl.chars().filter(|c| c.is_ascii_digit() || *c == ',').collect();
+            writeln!(out, "KPL {}", if toks.is_empty() { "-" } else { &toks }).unwrap();
+        }
+    }
     writeln!(out, "PARSED {}", tokens.len()).unwrap();
     for t in &tokens {
         writeln!(out, "t {:?}", t.get_token_type()).unwrap();
